@@ -392,6 +392,91 @@ func c06Gen(r *rand.Rand, tier string) []string {
 		out = append(out, fmt.Sprintf("kind=engine agg=%s pools=%d inst=0 ammo=%d per=1 q=4 slow=0 cancel=-1 seed=%d", agg, 1+r.Intn(2), r.Intn(3), r.Intn(1<<20)))
 		out = append(out, fmt.Sprintf("kind=engine agg=%s pools=1 inst=%d ammo=0 per=1 q=4 slow=0 cancel=-1 seed=%d", agg, 1+r.Intn(4), r.Intn(1<<20)))
 	}
+	// ---- round 4
+	nEarly, nShared, nThree := 10, 6, 4
+	if tier == "thorough" {
+		nEarly, nShared, nThree = 160, 80, 60
+	}
+	// a pool that fails before / while its tasks are started (warm-up gun, WarmUp, shared schedule, first instance, Bind),
+	// alone or next to one or two healthy pools: Engine.Wait must return, every started aggregator must have returned
+	for i := 0; i < nEarly; i++ {
+		agg := []string{"phout", "jsonlines"}[r.Intn(2)]
+		pools := 1 + r.Intn(3)
+		ammo, per := []int{2, 10, 60}[r.Intn(3)], 1+r.Intn(3)
+		q := []int{4, 64, 4096}[r.Intn(3)]
+		if agg == "phout" && q < ammo*per {
+			q = ammo * per // nobody empties phout's queue after Run returned
+		}
+		what := []string{"warm", "warmup", "sched", "inst", "bind"}[(i+r.Intn(2))%5]
+		out = append(out, fmt.Sprintf("kind=engine agg=%s pools=%d inst=%d ammo=%d per=%d q=%d slow=%d cancel=-1 seed=%d early=%s:%d",
+			agg, pools, []int{1, 2, 4}[r.Intn(3)], ammo, per, q, []int{0, 200, 1500}[r.Intn(3)], r.Intn(1<<20), what, r.Intn(pools)))
+	}
+	// one rps schedule shared by the pool's instances runs out before the ammo does (or after): its on-finish callback
+	// stops the instance start, the instances in their last shoot still report
+	for i := 0; i < nShared; i++ {
+		agg := []string{"phout", "jsonlines"}[r.Intn(2)]
+		ammo := []int{5, 30, 120}[r.Intn(3)]
+		shared := []int{1, 3, ammo - 1, ammo, ammo + 5}[r.Intn(5)]
+		if shared < 1 {
+			shared = 1
+		}
+		l := fmt.Sprintf("kind=engine agg=%s pools=%d inst=%d ammo=%d per=%d q=4096 slow=%d cancel=-1 seed=%d shared=%d",
+			agg, 1+r.Intn(2), []int{1, 3, 8}[r.Intn(3)], ammo, 1+r.Intn(2), []int{0, 300, 2000}[r.Intn(3)], r.Intn(1<<20), shared)
+		if r.Intn(2) == 0 {
+			l += fmt.Sprintf(" startrps=%d", []int{200, 1000}[r.Intn(2)]) // the schedule runs out while instances are still being started
+		}
+		out = append(out, l)
+	}
+	// the aggregator built from an option map through the plugin registry and the config decoder, over a real file with
+	// stale content: all options given (conf=1) or only the required ones (conf=2: the registered defaults)
+	nConf := 10
+	if tier == "thorough" {
+		nConf = 200
+	}
+	for i := 0; i < nConf; i++ {
+		agg := []string{"phout", "jsonlines"}[i%2]
+		g, k := []int{1, 4, 16}[r.Intn(3)], []int{0, 1, 30, 200}[r.Intn(4)]
+		if i%5 == 4 {
+			q := map[string]int{"phout": 256 * 1024, "jsonlines": 128 * 1024}[agg] // the documented defaults
+			out = append(out, fmt.Sprintf("kind=queue agg=%s g=%d k=%d q=%d flush=1000 buf=0 wrap=0 jit=%d conf=2", agg, g, k, q, r.Intn(1000)))
+			continue
+		}
+		q := []int{1, 2, 64, 4096}[r.Intn(4)]
+		if agg == "phout" && r.Intn(4) == 0 {
+			q = 0
+		}
+		l := qline(agg, g, k, q) + " conf=1"
+		if r.Intn(4) == 0 && (agg != "phout" || q >= g*k) {
+			l += " late=1"
+		}
+		out = append(out, l)
+	}
+	// more instances than the pool's result channel buffers, all finishing while the await loop is held up by a slow
+	// log sink: their results pile up in (and behind) the channel
+	nSlowLog := 2
+	if tier == "thorough" {
+		nSlowLog = 10
+	}
+	for i := 0; i < nSlowLog; i++ {
+		agg := []string{"phout", "jsonlines"}[i%2]
+		inst := []int{100, 130, 200}[r.Intn(3)]
+		out = append(out, fmt.Sprintf("kind=engine agg=%s pools=1 inst=%d ammo=%d per=1 q=4096 slow=0 cancel=-1 seed=%d slowlog=%d",
+			agg, inst, []int{0, inst / 2, inst}[r.Intn(3)], r.Intn(1<<20), []int{200, 500}[r.Intn(2)]))
+	}
+	// three pools: natural end, a cancel in the middle, a pool whose gun breaks
+	for i := 0; i < nThree; i++ {
+		agg := []string{"phout", "jsonlines"}[r.Intn(2)]
+		ammo, per := []int{5, 30}[r.Intn(2)], 1+r.Intn(2)
+		cancel, extra := -1, ""
+		switch i % 3 {
+		case 1:
+			cancel = 1 + r.Intn(ammo)
+		case 2:
+			extra = fmt.Sprintf(" fail=%d", 1+r.Intn(ammo))
+		}
+		out = append(out, fmt.Sprintf("kind=engine agg=%s pools=3 inst=%d ammo=%d per=%d q=%d slow=%d cancel=%d seed=%d%s",
+			agg, []int{1, 4}[r.Intn(2)], ammo, per, ammo*per, []int{0, 300}[r.Intn(2)], cancel, r.Intn(1<<20), extra))
+	}
 	for i := 0; i < nJSON; i++ {
 		n := 1 + r.Intn(6)
 		q := n + r.Intn(4)
@@ -594,6 +679,9 @@ func c06Class(input, obs string) string {
 		if kv["sink"] == "file" {
 			c += ":file"
 		}
+		if kv["conf"] != "" {
+			c += ":conf" + kv["conf"]
+		}
 		if kv["fail"] != "" {
 			c += ":fail"
 		}
@@ -620,6 +708,18 @@ func c06Class(input, obs string) string {
 		}
 		if kv["fail"] != "" {
 			c += ":poolfails"
+		}
+		if e := kv["early"]; e != "" {
+			c += ":early-" + strings.SplitN(e, ":", 2)[0]
+		}
+		if kv["shared"] != "" {
+			c += ":shared-schedule"
+		}
+		if kv["slowlog"] != "" {
+			c += ":slow-await-loop"
+		}
+		if kv["pools"] == "3" {
+			c += ":3pools"
 		}
 		if atoi(kv["inst"]) > 64 {
 			c += ":inst>64"
